@@ -105,7 +105,7 @@ ObjectClauses(dec, rgs, lfs, cobj, c, anyRejected) ==
                             ELSE IF \E i \in DOMAIN a.val : a.val[i].k = "ref" /\ ~ValEq(a.val[i], da.vals[i], dec, rgs, lfs, cobj)
                                  THEN {"C07.RefIsTarget"} ELSE Flag("C05.AttrValue", << c.name, a.label, a.val, da >>)))
            ELSE {})
-     \cup (IF a.has_units /\ a.judge /\ da.units # a.units THEN Flag("C05.AttrUnits", << c.name, a.label, a.units, da.units >>) ELSE {})
+     \cup (IF a.has_units /\ a.has_val /\ Len(a.val) > 0 /\ a.judge /\ da.units # a.units THEN Flag("C05.AttrUnits", << c.name, a.label, a.units, da.units >>) ELSE {})
       extra == { i \in DOMAIN o.attrs : i <= Len(r.labels) /\ ~o.attrs[i].absent
                                         /\ r.labels[i] \notin AssignedLabels(c)
                                         /\ << r.st, r.labels[i] >> \notin AllowedAddition }
